@@ -29,13 +29,13 @@ RULE_D = {
     "fields": ["f1", "f5", "g1"],
     "detection": {
         "sel": {"f1": "a*", "f2": 5, "f3|fieldref": "f1"},
-        "flt": {"f1": "b", "f4": None},
+        "flt": {"f1": "b", "f4": None, "f6|cased": "b"},
         "kw": ["k"],
         "condition": "sel and not flt or kw",
     },
 }
 ITEMS = [("sel", 0, "f1", [("str", "a*")]), ("sel", 1, "f2", [("num", 5)]), ("sel", 2, "f3", [("ref", "f1")]),
-         ("flt", 0, "f1", [("str", "b")]), ("flt", 1, "f4", [("null", None)]), ("kw", 0, None, [("str", "k")])]
+         ("flt", 0, "f1", [("str", "b")]), ("flt", 1, "f4", [("null", None)]), ("flt", 2, "f6", [("str", "b")]), ("kw", 0, None, [("str", "k")])]
 
 PRE = {
     "ps": {"id": "ps", "type": "set_state", "key": "k", "val": "v"},
@@ -428,7 +428,7 @@ def space(tier):
         for g in sweep(scope, tier):
             r1, r2 = RED[others[0]], RED[others[1]]
             combos = [(None, None), (r1[1], None), (r1[4], None), (None, r2[1]), (None, r2[4])]
-            hs = pres if g[0] == "expr" else PRES_SMALL
+            hs = pres if g[0] == "expr" and T.count_ops(g[1]) <= 2 else PRES_SMALL
             for o1, o2 in combos:
                 groups = [None, None, None]
                 groups[scope] = g
